@@ -316,6 +316,12 @@ class Check:
         srcs = sorted(glob.glob(os.path.join(REPO, 'src', '*.rs'))) + [os.path.join(VERIF, 'harness', 'src', 'lib.rs')]
         mir.load_structs(srcs)
         mir._nl.clear()
+        if s.prop == 'C17':
+            # seeded random straight-line programs, regenerated on every run (VERIF_SEED)
+            n = s.table.get('*', {}).get('programs', {}).get(s.tier, 20)
+            r = sh([sys.executable, os.path.join(VERIF, 'tools', 'gen_c17.py'), 'programs', str(s.seed), str(n)])
+            if r.returncode != 0:
+                raise BuildError('program generator failed: ' + r.stderr[-2000:])
         path, dt = dump_mir(s.feature)
         s.dump_s = dt
         s.text = open(path).read()
